@@ -11,6 +11,12 @@ for f in sorted(glob.glob(os.path.join(V, "variants", "benign", "*.json"))):
 # behaviour-preserving refactorings written by independent authors (DESIGN.md §6, round 5): one diff each
 for f in sorted(glob.glob(os.path.join(V, "variants", "benign", "refactors", "*.diff"))):
     specs.append({"name": "refactor:" + os.path.basename(f)[:-5], "patch": os.path.relpath(f, V)})
+# multi-symbol renames of anchored functions, methods, variables and fields (rename resolution, DESIGN.md §1)
+for f in sorted(glob.glob(os.path.join(V, "variants", "benign", "renames", "*.diff"))):
+    specs.append({"name": "rename:" + os.path.basename(f)[:-5], "patch": os.path.relpath(f, V)})
+# small correct extensions (counters, knobs with the old default, validation, fast paths) by independent authors (round 9)
+for f in sorted(glob.glob(os.path.join(V, "variants", "benign", "extensions", "*.diff"))):
+    specs.append({"name": "extension:" + os.path.basename(f)[:-5], "patch": os.path.relpath(f, V)})
 only = sys.argv[1:]
 for _once in [0]:
     for sp in specs:
